@@ -70,6 +70,8 @@ func (o rOp) String() string {
 		return fmt.Sprintf("Apply(conc=%d)", o.Conc)
 	case "reset":
 		return fmt.Sprintf("Reset(frame %d)", o.Frame)
+	case "writetofail":
+		return fmt.Sprintf("WriteTo(destination failing at call %d)", o.N)
 	}
 	return o.Op
 }
@@ -118,8 +120,11 @@ func execROp(r *lz4.Reader, src *inst.Source, op rOp, handled *int) opResult {
 			res.Bytes = append([]byte(nil), (*bp)[:n]...)
 		}
 		readBufPool.Put(bp)
-	case "writeto":
+	case "writeto", "writetofail":
 		var sink inst.Sink
+		if op.Op == "writetofail" {
+			sink.FailAt = op.N // the destination fails at its N-th call
+		}
 		n, err := r.WriteTo(&sink)
 		res.N, res.Err, res.Bytes = n, errClass(err), sink.Buf
 	case "size":
@@ -183,6 +188,7 @@ func (r *rRun) run(c c17RCase) {
 			cur = op.Frame % len(frames)
 			src = &inst.Source{Data: frames[cur]}
 			rd.Reset(src)
+			r.abandons = false // Reset drains the pipeline of whatever stream was abandoned before
 			state, out, epoch, handled = rsFresh, nil, nil, 0
 			epochConc = conc
 			continue
@@ -307,6 +313,28 @@ func (r *rRun) run(c c17RCase) {
 				if src.Consumed() != eofConsumed {
 					r.fail = stat.Failf("C17/reader/read-after-end-of-stream-consumes-source", "%s: source position moved from %d to %d", where, eofConsumed, src.Consumed())
 					return
+				}
+			}
+		case "writetofail":
+			// a failing destination ends the call mid-stream: the object is in its error state until Reset
+			class("misuse/writeto-with-a-failing-destination")
+			if res.Err == "injected" {
+				if conc > 1 {
+					r.abandons = true
+				}
+				state = rsErrored
+			} else if state == rsFresh && valid && res.Err == "nil" {
+				// the destination was never called N times: an ordinary WriteTo
+				if !bytes.Equal(res.Bytes, fr.Content) {
+					r.fail = stat.Failf("C17/reader/writeto-on-fresh-object-wrong/"+res.Err, "%s: %d bytes written, content has %d", where, len(res.Bytes), len(fr.Content))
+					return
+				}
+				state = rsEOF
+				eofConsumed = src.Consumed()
+			} else {
+				state = rsErrored
+				if conc > 1 {
+					r.abandons = true
 				}
 			}
 		case "writeto":
@@ -499,7 +527,11 @@ func drawC17RReuse(t *rapid.T) c17RCase {
 		case 1:
 			c.Ops = append(c.Ops, rOp{Op: "read", N: rapid.SampledFrom([]int{1, 4095, 65536}).Draw(t, "partial")})
 		case 2:
-			c.Ops = append(c.Ops, rOp{Op: "writeto"})
+			if rapid.Bool().Draw(t, "wtfail") {
+				c.Ops = append(c.Ops, rOp{Op: "writetofail", N: rapid.IntRange(1, 3).Draw(t, "wtfailat")})
+			} else {
+				c.Ops = append(c.Ops, rOp{Op: "writeto"})
+			}
 		case 3:
 			c.Ops = append(c.Ops, rOp{Op: "size"}, rOp{Op: "read", N: 0})
 		default:
@@ -528,8 +560,13 @@ func drawC17R(t *rapid.T) c17RCase {
 		case k <= 9:
 			op.Op = "read"
 			op.N = rapid.SampledFrom([]int{0, 1, 7, 4095, 65535, 65536, 65537, 1 << 20}).Draw(t, "rn")
-		case k <= 11:
+		case k == 10:
 			op.Op = "writeto"
+		case k == 11:
+			op.Op = "writeto"
+			if rapid.Bool().Draw(t, "wtfail") {
+				op.Op, op.N = "writetofail", rapid.IntRange(1, 3).Draw(t, "wtfailat")
+			}
 		case k <= 13:
 			op.Op = "size"
 		case k <= 15:
@@ -553,7 +590,7 @@ func TestC17Reader(t *testing.T) {
 	bubbleT = t
 	rec := stat.For("C17")
 	rec.SetRule(c17Rule)
-	rec.Require("reader/nontrivial", "reader/misuse/read-after-eof", "reader/reuse/reset-after-eof", "reader/misuse/reset-mid-stream", "reader/misuse/writeto-after-read", "reader/differential/after-a-reset", "reader/frame/enc", "reader/frame/badoffset", "reader/frame/mutated", "reader/epoch/valid-frame-read-to-eof", "reader/epoch/valid-frame-writeto")
+	rec.Require("reader/nontrivial", "reader/misuse/writeto-with-a-failing-destination", "reader/misuse/read-after-eof", "reader/reuse/reset-after-eof", "reader/misuse/reset-mid-stream", "reader/misuse/writeto-after-read", "reader/differential/after-a-reset", "reader/frame/enc", "reader/frame/badoffset", "reader/frame/mutated", "reader/epoch/valid-frame-read-to-eof", "reader/epoch/valid-frame-writeto")
 	checkProp(t, "C17", "C17/reader", pick(2500, 80000), drawC17R, runC17R)
 }
 
